@@ -343,3 +343,80 @@ def read_tree(root):
             with open(p, "rb") as f:
                 out[os.path.normpath(os.path.join(rel, name))] = f.read()
     return out
+
+
+# ---------------------------------------------------------------- owned clock
+
+class FakeClock(object):
+    """Replaces the `time` module (and functions imported from it, and `datetime`) as seen by
+    netconan's modules with a clock that starts at `start` and advances `step` seconds per reading.
+    `sites` = number of module attributes replaced (0 = the code never looks at a clock)."""
+
+    _FUNCS = ("time", "monotonic", "perf_counter", "process_time", "time_ns", "monotonic_ns", "perf_counter_ns",
+              "process_time_ns")
+
+    def __init__(self, step, start=1.0e9):
+        self.step, self.now = step, start
+        self.readings = 0
+        self._saved = []
+
+    def _read(self, ns=False):
+        self.readings += 1
+        self.now += self.step
+        return int(self.now * 1e9) if ns else self.now
+
+    def __enter__(self):
+        import datetime as _dt
+        import time as _time
+        import types
+
+        fake = types.SimpleNamespace(**{k: getattr(_time, k) for k in dir(_time) if not k.startswith("__")})
+        funcs = {}
+        for name in self._FUNCS:
+            if hasattr(_time, name):
+                f = (lambda ns: (lambda: self._read(ns)))(name.endswith("_ns"))
+                setattr(fake, name, f)
+                funcs[getattr(_time, name)] = f
+        fake.sleep = lambda s: None
+        clock = self
+
+        class _FakeDateTime(_dt.datetime):
+            @classmethod
+            def now(cls, tz=None):
+                return _dt.datetime.fromtimestamp(clock._read(), tz)
+
+            @classmethod
+            def utcnow(cls):
+                return _dt.datetime.utcfromtimestamp(clock._read())
+
+            @classmethod
+            def today(cls):
+                return _dt.datetime.fromtimestamp(clock._read())
+
+        fake_dt = types.SimpleNamespace(**{k: getattr(_dt, k) for k in dir(_dt) if not k.startswith("__")})
+        fake_dt.datetime = _FakeDateTime
+        for m in netconan_modules():
+            for k, v in list(vars(m).items()):
+                new = None
+                if v is _time:
+                    new = fake
+                elif v is _dt:
+                    new = fake_dt
+                elif v is _dt.datetime:
+                    new = _FakeDateTime
+                else:
+                    try:
+                        new = funcs.get(v)
+                    except TypeError:
+                        new = None
+                if new is not None:
+                    self._saved.append((m, k, v))
+                    setattr(m, k, new)
+        self.sites = len(self._saved)
+        return self
+
+    def __exit__(self, *a):
+        for m, k, v in self._saved:
+            setattr(m, k, v)
+        self._saved = []
+        return False
